@@ -45,10 +45,10 @@ Print Assumptions fraction_value_fixed.
 (* "accepts only well-formed literals" is false at the API:  "-" is an Int literal of undefined value,
    ".5" and "1." are accepted (by mkConst resp. by stringToRational alone). *)
 Theorem accepts_only_wf_refuted :
-  mk_const LIA (S "-") = MInt (S "-") FRGarbage /\
+  (exists nm, mk_const LIA (S "-") = MInt nm FRGarbage) /\
   mk_const LRA (S ".5") = MReal (S "1/2") (FRVal (1 # 2)) /\
   string_to_rational (S "1.") = StrVal 1 /\ string_to_rational (S "") = StrVal 0.
-Proof. repeat split; vm_compute; reflexivity. Qed.
+Proof. split; [eexists; vm_compute; reflexivity|]. repeat split; vm_compute; reflexivity. Qed.
 Print Assumptions accepts_only_wf_refuted.
 
 (* ... and the classifier and the converter disagree: isRealString accepts what stringToRational
@@ -106,12 +106,21 @@ Theorem token_mkconst_exact : forall s : str,
 Proof. intros s H. apply token_mkconst_exact_proof; [reflexivity | assumption]. Qed.
 Print Assumptions token_mkconst_exact.
 
-(* Int constants keep their spelling as identity: equal values, different terms; with UF in the logic
-   mkEq folds them to false (DESIGN.md par.9 #12). *)
+(* Int constants.  Variant before commit d04fdc4 (symbol name = raw text): equal values, different terms;
+   with UF in the logic mkEq folds them to false (DESIGN.md par.9 #12). *)
 Theorem int_const_identity_refuted :
-  mk_eq_int_consts false (S "007") (S "7") = Some true /\ mk_eq_int_consts true (S "007") (S "7") = Some false.
+  mk_eq_int_consts_v false false (S "007") (S "7") = Some true /\ mk_eq_int_consts_v false true (S "007") (S "7") = Some false.
 Proof. split; vm_compute; reflexivity. Qed.
 Print Assumptions int_const_identity_refuted.
+
+(* Variant of the current tree (symbol name = canonical spelling; which variant is live is regenerated
+   into Gen_Normalize.int_const_canonical): mkEq of two Int literals is decided by their values, with or
+   without UF in the logic, whatever the spellings. *)
+Theorem int_const_identity_fixed : forall (uf : bool) (a b : str) (p q : Q),
+  is_int_string a = true -> is_int_string b = true -> fr_of_string a = FRVal p -> fr_of_string b = FRVal q ->
+  mk_eq_int_consts_v true uf a b = Some (Qeq_bool p q).
+Proof. intros uf a b p q. apply int_const_identity_fixed_proof. reflexivity. Qed.
+Print Assumptions int_const_identity_fixed.
 
 (* non-vacuity *)
 Example decimal_nonvacuous :
